@@ -148,6 +148,48 @@ pub fn run(tier: Tier) -> i32 {
             }
         }
     });
+    // a stream whose header says USE_GV = 0 is unaffected by the GV weight even when the file still carries GV data
+    // for it: bundled voice with only the USE_GV flag of one stream cleared (positions left in place)
+    let mut nogv_cases = 0u64;
+    for sname in ["MCP", "LF0"] {
+        let bytes = crate::gen::cond::v0_bytes();
+        let text = String::from_utf8_lossy(&bytes[..4096]).to_string();
+        let key = format!("USE_GV[{}]:1", sname);
+        let Some(pos) = text.find(&key) else { continue };
+        let mut out = bytes.clone();
+        out[pos + key.len() - 1] = b'0';
+        let e0 = match catch(|| engine_from_bytes(&out)) {
+            Ok(Ok(e)) => e,
+            other => {
+                rep.violation("nogv-load", format!("bundled voice with USE_GV[{}] cleared does not load: {:?}", sname, other.err()), json!({"voice": format!("V0 with USE_GV[{}]:0", sname)}));
+                continue;
+            }
+        };
+        let si = if sname == "MCP" { 0 } else { 1 };
+        for u in wins.iter().step_by((wins.len() / tier.pick(3, 10)).max(1)) {
+            let mut first: Option<Vec<Vec<f64>>> = None;
+            for &w in &[0.25, 1.0, 2.0] {
+                let mut e = e0.clone();
+                e.condition.set_gv_weight(0, w);
+                e.condition.set_gv_weight(1, w);
+                let Ok(t) = trajectories(&e, u) else { continue };
+                rep.eval(1);
+                nogv_cases += 1;
+                let tr = if si == 0 { t.0 } else { t.1 };
+                match &first {
+                    None => first = Some(tr),
+                    Some(f) => {
+                        rep.cmp(1);
+                        if !bits_eq2(f, &tr) {
+                            rep.violation("nogv-stream-affected", format!("stream {} has USE_GV = 0 in the header, yet its trajectory changes with the GV weight ({} vs 0.25)", sname, w), json!({"voice": format!("V0 with USE_GV[{}]:0 (GV positions still listed)", sname), "labels": u, "gv_weight": w}));
+                            break;
+                        }
+                    }
+                }
+            }
+        }
+    }
+    rep.note("use_gv_cleared_cases", json!(nogv_cases));
     // no eligible frame: silence-only utterances equal the plain ML solution (dense reference)
     let sil: Vec<String> = corpus.iter().filter(|l| any_glob(&gv_off, l)).cloned().collect();
     let mut sil_cases = 0u64;
